@@ -147,6 +147,11 @@ class CascadeMonitor:
             else:
                 ctx.hit("event:raise_without_defuzzifier_call")
             return
+        if self.raw_exc is not None:
+            # the defuzzifier raised and the variable carried on regardless: nothing may have changed
+            ctx.hit("event:defuzzifier raised and the variable returned normally")
+            unchanged(f"defuzzifier raised {type(self.raw_exc).__name__} (not propagated)")
+            return
         if self.raw is None:
             ctx.hit("skipped:raw defuzzified value not observed (defuzzifier class unknown to the hooks)")
             return
